@@ -184,11 +184,15 @@ func (w *World) evalMethodsUncached(node string) []*FuncInfo {
 	for _, f := range w.compilerMethods() {
 		sig := f.Obj.Type().(*types.Signature)
 		// a node evaluator: func (c *compiler) evalX(node T) (interface{}, error)
-		if sig.Params().Len() != 1 || sig.Results().Len() != 2 || !isErrorType(sig.Results().At(1).Type()) {
+		// (or, for a statement that yields no value, func (c *compiler) evalX(node T) error)
+		errOnly := sig.Results().Len() == 1 && isErrorType(sig.Results().At(0).Type()) && (node == "LetStatement" || node == "Statement")
+		if sig.Params().Len() != 1 || !(errOnly || (sig.Results().Len() == 2 && isErrorType(sig.Results().At(1).Type()))) {
 			continue
 		}
-		if _, isIface := sig.Results().At(0).Type().Underlying().(*types.Interface); !isIface {
-			continue
+		if !errOnly {
+			if _, isIface := sig.Results().At(0).Type().Underlying().(*types.Interface); !isIface {
+				continue
+			}
 		}
 		for i := 0; i < sig.Params().Len(); i++ {
 			if namedIs(sig.Params().At(i).Type(), astPath, node) {
